@@ -31,15 +31,15 @@ Qed.
 
 Lemma acquire_conns b cn name flags cs ss code es :
   acquire_service b cn name flags = ROk cs ss code es ->
-  find_conn (b_conns b) (c_id cn) = Some cn -> bounded (b_limit b) (b_conns b) ->
-  shapes cs = shapes (b_conns b) /\ bounded (b_limit b) cs.
+  find_conn (b_conns b) (c_id cn) = Some cn -> forall f, (forall i, b_limit b <= f i) -> boundedf f (b_conns b) ->
+  shapes cs = shapes (b_conns b) /\ boundedf f cs.
 Proof.
-  intros H Hf B. unfold acquire_service in H.
+  intros H Hf f Hlim B. unfold acquire_service in H.
   destruct (negb (validate_bus_name name)); [discriminate|].
   destruct (starts_with_colon name); [discriminate|].
   destruct (bytes_eqb name DBUS_SERVICE_DBUS_str); [discriminate|].
-  assert (Badd : b_limit b <=? nlen (c_owned cn) = false -> bounded (b_limit b) (own_add (b_conns b) (c_id cn) (KW name))).
-  { intros Hl. apply N.leb_gt in Hl. eapply own_add_bounded; eauto. }
+  assert (Badd : b_limit b <=? nlen (c_owned cn) = false -> boundedf f (own_add (b_conns b) (c_id cn) (KW name))).
+  { intros Hl. apply N.leb_gt in Hl. eapply own_add_boundedf; eauto. }
   destruct (lookup (b_services b) (KW name)) as [[|p w]|] eqn:Hlk.
   - cbn [find_owner] in H. destruct ((b_limit b <=? nlen (c_owned cn)) && negb false); discriminate H.
   - destruct (find_owner (p :: w) (c_id cn)) as [o|] eqn:Hfo.
@@ -47,33 +47,33 @@ Proof.
       rewrite andb_false_r in H. pose proof (add_owner_held (KW name) _ _ flags _ Hfo) as Hfr.
       destruct (add_owner (KW name) (p :: w) (c_id cn) flags) as [[[q' fr] es']|]; [subst fr|].
       all: break_hyp H; try discriminate; inversion H; subst; clear H;
-        rewrite ?own_del_shapes; (split; [reflexivity|]); repeat apply own_del_bounded; assumption.
+        rewrite ?own_del_shapes; (split; [reflexivity|]); repeat apply own_del_boundedf; assumption.
     + rewrite andb_true_r in H. destruct (b_limit b <=? nlen (c_owned cn)) eqn:Hl; [discriminate|]. specialize (Badd eq_refl).
       break_hyp H; try discriminate; inversion H; subst; clear H;
-        rewrite ?own_del_shapes, ?own_add_shapes; (split; [reflexivity|]); repeat apply own_del_bounded; assumption.
+        rewrite ?own_del_shapes, ?own_add_shapes; (split; [reflexivity|]); repeat apply own_del_boundedf; assumption.
   - rewrite andb_true_r in H. destruct (b_limit b <=? nlen (c_owned cn)) eqn:Hl; [discriminate|]. specialize (Badd eq_refl).
     break_hyp H; try discriminate; inversion H; subst; clear H;
       rewrite ?own_add_shapes; (split; [reflexivity|]); assumption.
 Qed.
 
 Lemma release_conns b cn name cs ss code es :
-  release_service b cn name = ROk cs ss code es -> bounded (b_limit b) (b_conns b) ->
-  shapes cs = shapes (b_conns b) /\ bounded (b_limit b) cs.
+  release_service b cn name = ROk cs ss code es -> forall f, boundedf f (b_conns b) ->
+  shapes cs = shapes (b_conns b) /\ boundedf f cs.
 Proof.
-  intros H B. unfold release_service in H.
+  intros H f B. unfold release_service in H.
   break_hyp H; try discriminate; inversion H; subst; clear H;
-    rewrite ?own_del_shapes; (split; [reflexivity|]); repeat apply own_del_bounded; assumption.
+    rewrite ?own_del_shapes; (split; [reflexivity|]); repeat apply own_del_boundedf; assumption.
 Qed.
 
-Lemma release_all_conns lim c ks : forall cs ss cs' ss' es,
-  release_all cs ss c ks = Some (cs', ss', es) -> shapes cs' = shapes cs /\ (bounded lim cs -> bounded lim cs').
+Lemma release_all_conns (lim : N -> N) c ks : forall cs ss cs' ss' es,
+  release_all cs ss c ks = Some (cs', ss', es) -> shapes cs' = shapes cs /\ (boundedf lim cs -> boundedf lim cs').
 Proof.
   induction ks as [|k ks IH]; intros cs ss cs' ss' es H; simpl in H.
   - inversion H; subst. auto.
   - destruct (lookup ss k); [|discriminate]. destruct (remove_owner k q c) as [[q' e1]|]; [|discriminate].
     destruct (release_all (own_del cs c k) (put_queue ss k q') c ks) as [[[cs1 ss1] es1]|] eqn:E; [|discriminate].
     inversion H; subst. destruct (IH _ _ _ _ _ E) as [S Bd]. rewrite own_del_shapes in S. split; [exact S|].
-    intros B. apply Bd. apply own_del_bounded. exact B.
+    intros B. apply Bd. apply own_del_boundedf. exact B.
 Qed.
 
 (* ---- Registry.step, event by event ------------------------------------------------------------ *)
@@ -88,27 +88,27 @@ Proof. destruct b; reflexivity. Qed.
 
 Definition no_fault (o : list RegTypes.out) : Prop := existsb is_fault o = false.
 
-Lemma step_request_conns b c name flags :
-  bounded (b_limit b) (b_conns b) ->
+Lemma step_request_conns b c name flags f :
+  (forall i, b_limit b <= f i) -> boundedf f (b_conns b) ->
   let b' := fst (step b (EvRequest c name flags)) in
-  shapes (b_conns b') = shapes (b_conns b) /\ bounded (b_limit b) (b_conns b') /\ b_next b' = b_next b.
+  shapes (b_conns b') = shapes (b_conns b) /\ boundedf f (b_conns b') /\ b_next b' = b_next b.
 Proof.
-  intros B. simpl. destruct (find_conn (b_conns b) c) as [cn|] eqn:Hf; [|simpl; auto].
+  intros Hlim B. simpl. destruct (find_conn (b_conns b) c) as [cn|] eqn:Hf; [|simpl; auto].
   destruct (negb (c_active cn)); [simpl; auto|].
   assert (Hc : c_id cn = c) by (apply find_conn_in in Hf; tauto).
   destruct (acquire_service b cn name flags) eqn:Ha; simpl; auto.
-  rewrite <- Hc in Hf. destruct (acquire_conns _ _ _ _ _ _ _ _ Ha Hf B). auto.
+  rewrite <- Hc in Hf. destruct (acquire_conns _ _ _ _ _ _ _ _ Ha Hf f Hlim B). auto.
 Qed.
 
-Lemma step_release_conns b c name :
-  bounded (b_limit b) (b_conns b) ->
+Lemma step_release_conns b c name f :
+  boundedf f (b_conns b) ->
   let b' := fst (step b (EvRelease c name)) in
-  shapes (b_conns b') = shapes (b_conns b) /\ bounded (b_limit b) (b_conns b') /\ b_next b' = b_next b.
+  shapes (b_conns b') = shapes (b_conns b) /\ boundedf f (b_conns b') /\ b_next b' = b_next b.
 Proof.
   intros B. simpl. destruct (find_conn (b_conns b) c) as [cn|] eqn:Hf; [|simpl; auto].
   destruct (negb (c_active cn)); [simpl; auto|].
   destruct (release_service b cn name) eqn:Ha; simpl; auto.
-  destruct (release_conns _ _ _ _ _ _ _ Ha B). auto.
+  destruct (release_conns _ _ _ _ _ _ _ Ha f B). auto.
 Qed.
 
 (* Hello that does not fault: exactly that connection becomes active and owns its unique name *)
@@ -128,10 +128,10 @@ Proof.
   - intros H N. inversion H; subst. discriminate.
 Qed.
 
-Lemma step_disconnect b c b' o lim : step b (EvDisconnect c) = (b', o) -> no_fault o ->
+Lemma step_disconnect b c b' o (lim : N -> N) : step b (EvDisconnect c) = (b', o) -> no_fault o ->
   exists cn, find_conn (b_conns b) c = Some cn /\
     shapes (b_conns b') = del_shape (shapes (b_conns b)) c /\ b_next b' = b_next b /\
-    (bounded lim (b_conns b) -> bounded lim (b_conns b')).
+    (boundedf lim (b_conns b) -> boundedf lim (b_conns b')).
 Proof.
   simpl. unfold fault. destruct (find_conn (b_conns b) c) as [cn|] eqn:Hf.
   - destruct (release_all (b_conns b) (b_services b) c (rev (c_owned cn))) as [[[cs ss] es]|] eqn:E.
@@ -437,4 +437,40 @@ Proof.
   - destruct (step_error _ _ _ ELimitsExceeded Hin eq_refl) as [_ [_ F]]. apply F. reflexivity.
   - destruct (step_error _ _ _ ELimitsExceeded Hin eq_refl) as [_ [_ F]]. exact F.
   - destruct (step_error _ _ _ ELimitsExceeded Hin eq_refl) as [_ [_ F]]. exact F.
+Qed.
+
+(* ---- the registry invariant without reference to a run (needed when the limit changes in mid-history) ------ *)
+Lemma sget_mget ss k : sget ss k = mget ss k.
+Proof.
+  unfold sget, mget. induction ss as [|[k' q] ss IH]; [reflexivity|]. simpl. destruct (key_eqb k k'); [reflexivity | exact IH].
+Qed.
+
+Lemma inv_R b : inv b -> exists s, R b s.
+Proof.
+  intros I. exists (mkS (map abs_conn (b_conns b)) (b_services b) (b_next b) (b_limit b)).
+  constructor; simpl; try reflexivity.
+  - intros k. apply sget_mget.
+  - exact (inv_keys _ I).
+Qed.
+
+Lemma inv_step b e : inv b -> inv (fst (step b e)).
+Proof.
+  intros I. destruct (inv_R b I) as [s Rr].
+  pose proof (refinement [e] b s 0%nat I Rr) as H. cbv zeta in H. destruct H as [_ [_ [H _]]].
+  simpl in H. destruct (step b e) as [b1 o]. exact H.
+Qed.
+
+Lemma inv_relimit cs ss n l l' : inv (mkBus cs ss n l) -> inv (mkBus cs ss n l').
+Proof. intros I. destruct I. constructor; assumption. Qed.
+
+Lemma inv_no_fault b c cn : inv b -> find_conn (b_conns b) c = Some cn ->
+  existsb is_fault (snd (step b (EvDisconnect c))) = false.
+Proof.
+  intros I Hf. destruct (inv_R b I) as [s Rr].
+  destruct (existsb is_fault (snd (step b (EvDisconnect c)))) eqn:E; [|reflexivity]. exfalso.
+  apply existsb_exists in E. destruct E as [o [Ho Fo]].
+  assert (Hc : forall c', event_conn (EvDisconnect c) = Some c' -> find_conn (b_conns b) c' <> None).
+  { intros c' Ec. inversion Ec; subst c'. rewrite Hf. discriminate. }
+  pose proof (RegistryMain.no_fault b s (EvDisconnect c) I Rr Hc o Ho) as Hn.
+  unfold is_fault in Fo. destruct (snd o); try discriminate. apply Hn. reflexivity.
 Qed.
